@@ -76,8 +76,9 @@ def main(argv):
                 "native SSR build, is parsed into the in-process DOM and hydrated by the real HydrateNode code; then 0-4 signal writes; non-trivial = the "
                 "view contains a dynamic construct and at least one write changed the DOM; distinct = distinct (state, view, ops)")
     chk.cov["explanation"] = ("Coq theorems relating the server build (Ssr/View.v) and the client model (Dom/Client.v): same visible tree, same elements in key order, same behaviour under writes; end-to-end differential check: real SSR output -> real hydration code on an in-process DOM -> fresh client render, node identities of the parsed server DOM, and the client model through every write")
-    okp, msgp = vlib.proof_step(chk, "C09+C05", ["theories/Props/C09.vo", "theories/Props/C05.vo", "theories/Dom/ClientShow.vo"],
-                                ["C09_visible_tree", "C09_keys", "C09_updates_agree", "C05_fresh_render_every_step", "C05_run_dom_nodup"])
+    okp, msgp = vlib.proof_step(chk, "C09+C05+C09h", ["theories/Props/C09.vo", "theories/Props/C05.vo", "theories/Props/C09h.vo", "theories/Dom/ClientShow.vo"],
+                                ["C09_visible_tree", "C09_keys", "C09_updates_agree", "C05_fresh_render_every_step", "C05_run_dom_nodup",
+                                 "C09_hydrate_ok", "C09_hydrate_nodes", "C09_hydrate_client", "C09h_class_exact_on_enumeration"])
     okb, outb, ssr = vlib.cargo_build("ssr-driver")
     chk.obligation("cargo build ssr-driver against /repo", okb, outb)
     binp = domlib.build(chk)
@@ -247,6 +248,30 @@ def main(argv):
     chk.obligation("correspondence: Dom/Hydrate.v predicts the DOM right after hydration from the real server DOM (%d agree, %d predicted failures, %d outside the model)" % (hagree, herrs, hunsup),
                    hmodel is not None and not hmism, str(hmism[:1]))
     mism += hmism
+    # the class of the adoption theorems (C09_hydrate_ok / _nodes / _client): `hydratable` evaluated on the generated views; for a view
+    # in the class the real hydration must have succeeded and passed the oracle (the theorem promises it for the model, which the two
+    # correspondences above tie to the code)
+    if hmodel is not None and okp:
+        try:
+            allc = list(range(len(cases)))
+            per = 60
+            pre_h = hydmodel.PRE.replace("Dom.Hydrate.", "Dom.Hydrate Dom.HydrateSpec.")
+            exprs = ["lines (map (fun p => if hydratable (fst p) (snd p) then \"1\" else \"0\") %s)"
+                     % vlib.glist(["(%s, %s)" % (viewgen.cq_state(cases[i][0]), viewgen.cq_view(cases[i][1])) for i in allc[j:j + per]])
+                     for j in range(0, len(allc), per)]
+            outs = vlib.coq_eval(PID + "c", pre_h, exprs, per_file=max(1, (len(exprs) + 31) // 32))
+            flags = [l for o in outs for l in o.split("\n")]
+            inclass = [i for i, f in zip(allc, flags) if f == "1"]
+            bad = [i for i in inclass if i in failed or impl[i][0].startswith("PANIC")]
+            chk.cov["hydratable_class"] = {"views": len(cases), "in_class": len(inclass)}
+            chk.obligation("hypothesis of the adoption theorems: %d of %d generated views are in the class `hydratable`; the real hydration of "
+                           "each of them succeeded and passed the oracle" % (len(inclass), len(cases)), len(flags) == len(cases) and inclass and not bad,
+                           str([lines[i][:300] for i in bad[:2]]))
+            if bad:
+                mism.append({"what": "a view in the class of the adoption theorems fails in the real code", "scenario": lines[bad[0]]})
+        except RuntimeError as e:
+            chk.obligation("evaluation of `hydratable` on the generated views", False, str(e)[-600:])
+            mism.append({"what": "evaluation of hydratable", "detail": str(e)[-300:]})
     if hmodel is None:
         model = None
     findings = {f["key"]: f for f in vlib.load_findings(PID)}
